@@ -18,6 +18,7 @@ Variable F : nat -> query (A := A) -> answer (A := A).
 Variable HK : nat -> hookargs (A := A) -> bool.
 Variable CS : nat -> list A -> bool.
 Variable lsq : A -> query (A := A).
+Variable lsc : A -> list A.
 Variable ls_hook ls_cons : bool.
 Variable HM : trace (A := A) -> hookargs (A := A) -> Prop.
 Hypothesis HM_ext : forall tr tr' h, ext tr tr' -> HM tr h -> HM tr' h.
@@ -108,19 +109,19 @@ Proof.
 Qed.
 
 Lemma ls_cons_loop_ok fuel : forall aj tr aj' tr', goodH tr ->
-  ls_cons_loop NM K CS fuel aj tr = Some (aj', tr') -> goodH tr' /\ ext tr tr'.
+  ls_cons_loop NM K CS lsc fuel aj tr = Some (aj', tr') -> goodH tr' /\ ext tr tr'.
 Proof.
   induction fuel as [|f IH]; intros aj tr aj' tr' G; simpl; [discriminate|].
-  pose proof (goodH_cons F HK CS HM HM_ext tr [aj] G) as G1.
-  destruct (CS (length tr) [aj]).
+  pose proof (goodH_cons F HK CS HM HM_ext tr (lsc aj) G) as G1.
+  destruct (CS (length tr) (lsc aj)).
   - intros X; inversion X; subst. split; [exact G1 | apply ext_step].
   - intros X. apply IH in X; [|exact G1]. destruct X as [G2 E2].
     split; [exact G2 | eapply ext_trans; [apply ext_step | exact E2]].
 Qed.
 
 Lemma ls_loop_ok fuel : forall i maxEval y0 g0 yi gi ai aj tr, goodH tr ->
-  ls_post y0 g0 tr (fst (ls_loop NM K F HK CS lsq ls_hook ls_cons fuel i maxEval y0 g0 yi gi ai aj tr))
-                   (snd (ls_loop NM K F HK CS lsq ls_hook ls_cons fuel i maxEval y0 g0 yi gi ai aj tr)).
+  ls_post y0 g0 tr (fst (ls_loop NM K F HK CS lsq lsc ls_hook ls_cons fuel i maxEval y0 g0 yi gi ai aj tr))
+                   (snd (ls_loop NM K F HK CS lsq lsc ls_hook ls_cons fuel i maxEval y0 g0 yi gi ai aj tr)).
 Proof.
   induction fuel as [|f IH]; intros i maxEval y0 g0 yi gi ai aj tr G; simpl.
   { unfold ls_post; ssplit; [exact G | apply ext_refl | nonconv]. }
@@ -128,13 +129,13 @@ Proof.
   2:{ unfold ls_post; ssplit; [exact G | apply ext_refl | nonconv]. }
   destruct (eqb NM aj zr); simpl.
   { unfold ls_post; ssplit; [exact G | apply ext_refl | nonconv]. }
-  assert (C : match (if ls_cons then ls_cons_loop NM K CS f aj tr else Some (aj, tr)) with
+  assert (C : match (if ls_cons then ls_cons_loop NM K CS lsc f aj tr else Some (aj, tr)) with
               | None => True | Some (aj', tr0) => goodH tr0 /\ ext tr tr0 end).
   { destruct ls_cons.
-    - destruct (ls_cons_loop NM K CS f aj tr) as [[aj' tr0]|] eqn:HC; [|exact I].
+    - destruct (ls_cons_loop NM K CS lsc f aj tr) as [[aj' tr0]|] eqn:HC; [|exact I].
       eapply ls_cons_loop_ok; eauto.
     - split; [exact G | apply ext_refl]. }
-  destruct (if ls_cons then ls_cons_loop NM K CS f aj tr else Some (aj, tr)) as [[aj' tr0]|]; simpl.
+  destruct (if ls_cons then ls_cons_loop NM K CS lsc f aj tr else Some (aj, tr)) as [[aj' tr0]|]; simpl.
   2:{ unfold ls_post; ssplit; [exact G | apply ext_refl | nonconv]. }
   destruct C as [G0 E0]. clear aj. rename aj' into aj.
   apply ls_post_weaken with (tr1 := tr0); [exact E0|].
@@ -171,8 +172,8 @@ Definition ls_full_post (tr : trace) (o : ls_out (A := A)) (tr' : trace) : Prop 
   (forall al, o = LSConv al -> ls_stop_ok NM K lsq tr' al).
 
 Theorem line_search_ok fuel alpha1 maxEval tr : goodH tr ->
-  ls_full_post tr (fst (line_search NM K F HK CS lsq ls_hook ls_cons fuel alpha1 maxEval tr))
-                  (snd (line_search NM K F HK CS lsq ls_hook ls_cons fuel alpha1 maxEval tr)).
+  ls_full_post tr (fst (line_search NM K F HK CS lsq lsc ls_hook ls_cons fuel alpha1 maxEval tr))
+                  (snd (line_search NM K F HK CS lsq lsc ls_hook ls_cons fuel alpha1 maxEval tr)).
 Proof.
   intros G. unfold line_search.
   remember (F (length tr) (lsq zr)) as a0 eqn:Ha0.
@@ -226,18 +227,30 @@ Proof.
   rewrite Z.sub_0_r in H. exact H.
 Qed.
 
+(* every trial step of the bracketing phase is evaluated only after the constraint
+   callback accepted its point (zoom's trial steps are NOT submitted: F-LS-ZOOM-CONS) *)
+Lemma ls_cons_loop_accepts fuel : forall aj tr aj' tr',
+  ls_cons_loop NM K CS lsc fuel aj tr = Some (aj', tr') ->
+  exists tr0, tr' = EvCons (lsc aj') true :: tr0.
+Proof.
+  induction fuel as [|f IH]; intros aj tr aj' tr'; simpl; [discriminate|].
+  destruct (CS (length tr) (lsc aj)) eqn:Hc.
+  - intros X; inversion X; subst. eexists; reflexivity.
+  - intros X. eapply IH; exact X.
+Qed.
+
 Lemma ls_cons_loop_evals fuel : forall aj tr aj' tr',
-  ls_cons_loop NM K CS fuel aj tr = Some (aj', tr') -> n_evals tr' = n_evals tr.
+  ls_cons_loop NM K CS lsc fuel aj tr = Some (aj', tr') -> n_evals tr' = n_evals tr.
 Proof.
   clear HM_ext HM_ls.
   induction fuel as [|f IH]; intros aj tr aj' tr'; simpl; [discriminate|].
-  destruct (CS (length tr) [aj]).
+  destruct (CS (length tr) (lsc aj)).
   - intros X; inversion X; subst. apply n_evals_cons.
   - intros X. apply IH in X. rewrite X. apply n_evals_cons.
 Qed.
 
 Lemma ls_loop_evals fuel : forall i maxEval y0 g0 yi gi ai aj tr,
-  (n_evals (snd (ls_loop NM K F HK CS lsq ls_hook ls_cons fuel i maxEval y0 g0 yi gi ai aj tr))
+  (n_evals (snd (ls_loop NM K F HK CS lsq lsc ls_hook ls_cons fuel i maxEval y0 g0 yi gi ai aj tr))
    <= n_evals tr + Z.to_nat (maxEval - i) + 1)%nat.
 Proof.
   clear HM_ext HM_ls.
@@ -246,12 +259,12 @@ Proof.
   apply Z.ltb_lt in Hi.
   assert (Hz : Z.to_nat (maxEval - i) = S (Z.to_nat (maxEval - (i + 1)))) by lia.
   destruct (eqb NM aj zr); simpl; [lia|].
-  assert (C : match (if ls_cons then ls_cons_loop NM K CS f aj tr else Some (aj, tr)) with
+  assert (C : match (if ls_cons then ls_cons_loop NM K CS lsc f aj tr else Some (aj, tr)) with
               | None => True | Some (aj', tr0) => n_evals tr0 = n_evals tr end).
   { destruct ls_cons; [|reflexivity].
-    destruct (ls_cons_loop NM K CS f aj tr) as [[aj' tr0]|] eqn:HC; [|exact I].
+    destruct (ls_cons_loop NM K CS lsc f aj tr) as [[aj' tr0]|] eqn:HC; [|exact I].
     eapply ls_cons_loop_evals; eauto. }
-  destruct (if ls_cons then ls_cons_loop NM K CS f aj tr else Some (aj, tr)) as [[aj' tr0]|]; simpl; [|lia].
+  destruct (if ls_cons then ls_cons_loop NM K CS lsc f aj tr else Some (aj, tr)) as [[aj' tr0]|]; simpl; [|lia].
   clear aj. rename aj' into aj.
   remember (F (length tr0) (lsq aj)) as a.
   destruct (a_err a); simpl; [rewrite n_evals_eval; lia|].
@@ -271,7 +284,7 @@ Proof.
 Qed.
 
 Theorem line_search_evals fuel alpha1 maxEval tr :
-  (n_evals (snd (line_search NM K F HK CS lsq ls_hook ls_cons fuel alpha1 maxEval tr))
+  (n_evals (snd (line_search NM K F HK CS lsq lsc ls_hook ls_cons fuel alpha1 maxEval tr))
    <= n_evals tr + Z.to_nat maxEval + 2)%nat.
 Proof.
   clear HM_ext HM_ls.
